@@ -32,6 +32,7 @@ CONFIGS = {
     'prod': ('clang++', PROD, True, []),
     'prod-nohook': ('clang++', PROD, True, []),   # guard off (see cxxflags())
     'prod-pic': ('clang++', PROD + ['-fPIC'], True, []),
+    'prod-g': ('clang++', PROD + ['-g', '-gdwarf-4'], True, []),          # production code generation with line tables, for valgrind
     'san': ('clang++', SAN, True, ['-fsanitize=address,undefined']),
     'sanx': ('clang++', SANX, True, ['-fsanitize=address,undefined']),
     'p64': ('clang++', PROD + P64, False, []),
